@@ -100,6 +100,27 @@ NEEDS = {
     "C18-diag-skip-uninformed-vars": "a variable whose yk column is all zero while its sk column is not (objective linear in that variable)",
     "C20-stopcrit-genexpr-resolution": "a callable ftarget/gtol raising StopIteration",
     "C20-linesearch-workspace-lock": "user fault inside a line search (call #1 or later), then a fault-free rerun in the same process",
+    # ---- round 5 (two more for the other ten properties, written against HEAD 53a426a)
+    "C01-selection-matrix-reuse": "two problems of different size solved in ONE process, the second starting with the free set the first ended with",
+    "C01-vertex-start-skip": "start with every variable on a bound (vertex) and a non-zero projected gradient",
+    "C02-fd-fixed-var-stencil": "finite-difference gradient mode with a variable lb == ub (visible only by recording evaluation points)",
+    "C02-linesearch-isboxed-projection": "partly bounded box, step limited by a finite bound at iteration >= 1, unlucky rounding",
+    "C03-iterate-from-memoized-trial": "truncated line search with a downhill trial followed by a worse last trial",
+    "C03-ls-start-value-shadowed": "truncated line search (maxls 2-3) whose trials are all uphill and not monotone",
+    "C08-first-iter-fastpath": "iter == 0 with a non-empty memory (direct call / checkpoint with nit reset to 0)",
+    "C08-near-bound-tolerance": "a coordinate within ~eps*|g_i| of a finite bound but not on it, plus another moving variable",
+    "C11-reposition-on-accepted-step": "evaluation cap exhausted and the lowest trial is not the last one (non-monotone objective along the ray)",
+    "C11-wolfe-step-on-convergence": "objective flat at float resolution (1e17 + small) with an informative gradient",
+    "C12-chol-ridge": "small-valued objective with a long gradient (f = eps*F(x/eps), eps = 1e-10)",
+    "C12-grad-buffer-alias": "gradient callable returning the same buffer object at every call",
+    "C15-fd-base-value-reuse": "2-point mode, gradient-only request at a new point after a value request elsewhere",
+    "C15-flag-before-eval": "user function raising at a new point, then a retry at that point",
+    "C16-isclose-fixed-mask": "bounds of large magnitude whose width is below 1e-5 relative (not fixed variables)",
+    "C16-shared-fd-options": "a second finite-difference solve constructed while another is in progress (nested / threads)",
+    "C17-scaler-skip-stationary-start": "scaler with s > 1 and a start with gtol/s < |proj grad| <= gtol",
+    "C17-target-updatefun-scaled": "gradient_scaler (s != 1) + ftarget + update_fun_def together",
+    "C19-griewank-cos-guard": "a coordinate within 1e-4*sqrt(i) of a zero of cos(x_i/sqrt(i))",
+    "C19-quartic-grad-weight-cache": "second call of quartic_grad in the same dimension (cached weights overwritten in place)",
 }
 
 
